@@ -192,6 +192,14 @@ pub struct C10Plan {
     /// stream the fault sequence opens) before holding it: the flow is half-closed locally
     #[serde(default)]
     pub victim_shutdown: bool,
+    /// the endpoint's application accepts the two streams of the set-up and then no more (the
+    /// penguin client never accepts any); the peer then opens this many further streams at once
+    #[serde(default)]
+    pub flood: usize,
+    /// after the message that is not a frame the peer is never heard of again: its direction goes
+    /// silent (nothing fails, no Close is answered)
+    #[serde(default)]
+    pub silent_after_garbage: bool,
 }
 
 const ID_BYS: u32 = 0xb0;
@@ -233,8 +241,15 @@ async fn run_c10_async(plan: C10Plan, sched: Sched, record: bool) -> Outcome {
     {
         let (m, v, br, held, ae, sp2) = (s.mux.clone(), viol.clone(), bys_read.clone(), held.clone(), accept_end.clone(), sp.clone());
         let vshut = plan.victim_shutdown;
+        let stop_after = if plan.flood > 0 { 2 } else { usize::MAX };
         s.sim.spawn("acceptor", CLS_OTHER, async move {
+            let mut taken = 0usize;
             loop {
+                if taken >= stop_after {
+                    // an application that has stopped accepting (it still holds the multiplexor)
+                    std::future::pending::<()>().await;
+                }
+                taken += 1;
                 match m.accept_stream_channel().await {
                     Ok(st) => {
                         if st.dest_host.starts_with(b"bys") {
@@ -374,6 +389,7 @@ async fn run_c10_async(plan: C10Plan, sched: Sched, record: bool) -> Outcome {
         let (raw, peer, plan2, model, er, sf, fd, pk, ga, seq, pr) = (s.raw.clone(), s.peer.clone(), plan.clone(), model.clone(), expect_resets.clone(), sent_frames.clone(), fault_done.clone(), probe_ok.clone(), garbage_at.clone(), s.seq.clone(), probes.clone());
         let ep_rwnd = plan.ep.rwnd;
         let binds_on = plan.ep.bind_buf > 0;
+        let lk_sil = s.link.clone();
         s.sim.spawn("peer-tx", CLS_OTHER, async move {
             // --- conforming setup
             raw.borrow_mut().send(RFrame::Connect { id: ID_BYS, rwnd: plan2.peer_rwnd.max(1), port: 9, host: b"bys".to_vec() });
@@ -413,6 +429,13 @@ async fn run_c10_async(plan: C10Plan, sched: Sched, record: bool) -> Outcome {
                 *bleft -= k;
                 true
             };
+            // --- a burst of further Connects at an application that accepts no more
+            for k in 0..plan2.flood {
+                let id = 0x0f10_0000 + k as u32;
+                model.borrow_mut().insert(id, St::Est { unread: 0, fin: false, reads: false });
+                sf.borrow_mut().push(format!("Connect {{ id: {id:x} }}"));
+                raw.borrow_mut().send(RFrame::Connect { id, rwnd: 2, port: 1, host: format!("fl{k}").into_bytes() });
+            }
             // --- the fault sequence
             for f in &plan2.seqn {
                 send_bys(&raw, &peer, &mut boff, &mut bleft);
@@ -527,6 +550,17 @@ async fn run_c10_async(plan: C10Plan, sched: Sched, record: bool) -> Outcome {
             if let Some(k) = plan2.garbage {
                 *ga.borrow_mut() = Some(seq.now());
                 raw.borrow_mut().send_bytes(crate::duo::garbage_bytes(k));
+                if plan2.silent_after_garbage {
+                    // (only once the endpoint has taken the message: a silence that swallows it
+                    // ends nothing)
+                    for _ in 0..100_000 {
+                        if lk_sil.lock().unwrap().evs.iter().any(|e| e.stage == Stage::Consumed && matches!(&*e.w, Wire::Garbage(_))) {
+                            lk_sil.lock().unwrap().cut(1, false, crate::link::SrcMode::Silent, false);
+                            break;
+                        }
+                        sim_yield().await;
+                    }
+                }
             }
         });
     }
@@ -598,6 +632,27 @@ async fn run_c10_async(plan: C10Plan, sched: Sched, record: bool) -> Outcome {
             }
         }
         // streams not addressed by the offending frames keep their data and state; the endpoint keeps serving
+        // (known finding: with the accept backlog full and an application that accepts no more, the
+        // task waits in the hand-over of the (stream_buffer_size + 1)-th unaccepted stream and reads
+        // nothing further: recognised by exactly that many of the burst's Connects having been acknowledged)
+        // (every Connect of the peer that was acknowledged but is not one of the two streams the
+        // application took: the burst's, and those of the fault sequence)
+        let flood_acked = p.acked.keys().filter(|id| **id != ID_BYS && **id != ID_VIC).count();
+        let blocked_on_backlog = plan.flood > 0 && flood_acked == plan.ep.stream_buf + 1;
+        if std::env::var_os("C10_DEBUG").is_some() {
+            eprintln!("flood={} buf={} acked={} probe={:?} got={:?} read={:?} want={}", plan.flood, plan.ep.stream_buf, flood_acked, probe_ok.borrow(), p.rx_bytes.get(&ID_BYS).map(|v| v.len()), bys_read.borrow().0, 2 * plan.bystander_bytes);
+        }
+        if plan.flood > 0 {
+            o.probe(if blocked_on_backlog { "connect-burst-beyond-the-accept-backlog" } else { "connect-burst-within-the-accept-backlog" }, 1);
+        }
+        if blocked_on_backlog && (*probe_ok.borrow() == Some(false) || p.rx_bytes.get(&ID_BYS).map(|v| v.len()).unwrap_or(0) != 2 * plan.bystander_bytes || bys_read.borrow().0 != 2 * plan.bystander_bytes) {
+            // whatever else is missing (Resets for later frames, the probe) follows from the task
+            // no longer reading: one finding, not several
+            o.violations.clear();
+            o.violate("C10:stops-serving:accept-backlog-full", format!("the peer opened {} streams at once at an endpoint whose application accepts no more (stream_buffer_size {}): {} Connects were acknowledged, then the connection task stopped reading: the bystander stream no longer moves and a fresh Connect is not answered", plan.flood, plan.ep.stream_buf, flood_acked));
+            o.nontrivial = true;
+            return o;
+        }
         if *probe_ok.borrow() == Some(false) {
             o.violate("C10:stopped-serving", format!("after the sequence [{seqtxt}] a fresh Connect was not acknowledged"));
         }
